@@ -21,9 +21,10 @@ type ZWriterObj struct {
 	acc []*Term
 }
 type ZReaderObj struct {
-	payload []*Term
-	pos     int
-	tailErr bool // stream ends with a checksum / unexpected-EOF error instead of clean EOF
+	payload   []*Term
+	pos       int
+	shortUsed bool
+	tailErr   bool // stream ends with a checksum / unexpected-EOF error instead of clean EOF
 }
 type TeeObj struct {
 	r Iface
@@ -356,8 +357,17 @@ func init() {
 			}
 			return Tuple{x.intConst(0), x.errEOF()}
 		}
+		limit := len(dst.a)
+		if x.params["shortReads"] == 1 && !r.shortUsed && limit > 1 && len(r.payload)-r.pos > 1 {
+			// io.Reader contract: a Read may return fewer bytes than asked for (the inflater does at window boundaries)
+			if x.c.Choose(2, "short-read") == 1 {
+				r.shortUsed = true
+				limit = (len(r.payload) - r.pos) / 2
+				x.c.notes = append(x.c.notes, "short read: the inflater returned fewer bytes than requested (allowed by the io.Reader contract; real streams do so at 32 KiB window boundaries)")
+			}
+		}
 		n := 0
-		for n < len(dst.a) && r.pos < len(r.payload) {
+		for n < limit && r.pos < len(r.payload) {
 			dst.a[n] = r.payload[r.pos]
 			n++
 			r.pos++
@@ -544,4 +554,177 @@ func (x *Exec) binDecode(t types.Type, old Value, bs []*Term, pos *int) Value {
 	}
 	x.engineErr("binary.Read into %s", t)
 	return nil
+}
+
+// ---- more of bytes / io / fmt, so that realistic refactorings of Goit stay encodable ----
+
+func (x *Exec) bufOf(v Value) *BufObj {
+	b, ok := deref(v).(*BufObj)
+	if !ok || b == nil {
+		x.gopanic("nil *bytes.Buffer")
+	}
+	return b
+}
+
+func (b *BufObj) flat(x *Exec) []*Term {
+	if b.z != nil {
+		x.engineErr("reading the content of a compressed stream held in a bytes.Buffer is not modelled")
+	}
+	return b.data
+}
+
+func init() {
+	intrinsics["bytes.NewBuffer"] = func(x *Exec, a []Value) Value {
+		cell := new(Value)
+		*cell = &BufObj{data: append([]*Term{}, x.strOf(a[0]).b...)}
+		return cell
+	}
+	intrinsics["bytes.NewBufferString"] = func(x *Exec, a []Value) Value {
+		cell := new(Value)
+		*cell = &BufObj{data: append([]*Term{}, a[0].(Str).b...)}
+		return cell
+	}
+	bw := func(x *Exec, a []Value) Value {
+		b := x.bufOf(a[0])
+		s := x.strOf(a[1])
+		b.data = append(b.flat(x), s.b...)
+		return Tuple{x.intConst(int64(len(s.b))), nilErr}
+	}
+	intrinsics["(*bytes.Buffer).Write"] = bw
+	intrinsics["(*bytes.Buffer).WriteString"] = bw
+	intrinsics["*bytes.Buffer.Write"] = bw
+	intrinsics["*bytes.Buffer.WriteString"] = bw
+	intrinsics["(*bytes.Buffer).WriteByte"] = func(x *Exec, a []Value) Value {
+		b := x.bufOf(a[0])
+		b.data = append(b.flat(x), a[1].(*Term))
+		return nilErr
+	}
+	intrinsics["(*bytes.Buffer).String"] = func(x *Exec, a []Value) Value {
+		if p, ok := a[0].(*Value); ok && p == nil {
+			return x.cstr("<nil>")
+		}
+		return Str{append([]*Term{}, x.bufOf(a[0]).flat(x)...)}
+	}
+	intrinsics["(*bytes.Buffer).Len"] = func(x *Exec, a []Value) Value { return x.intConst(int64(len(x.bufOf(a[0]).flat(x)))) }
+	intrinsics["(*bytes.Buffer).Reset"] = func(x *Exec, a []Value) Value { b := x.bufOf(a[0]); b.data, b.z = nil, nil; return nil }
+	intrinsics["(*bytes.Buffer).Grow"] = func(x *Exec, a []Value) Value {
+		n := a[1].(*Term)
+		if x.c.Branch(x.c.st.Cmp(OpSlt, n, x.intConst(0))) {
+			x.gopanic("bytes.Buffer.Grow: negative count")
+		}
+		if x.c.Branch(x.c.st.Cmp(OpSlt, x.intConst(1<<26), n)) {
+			x.gopanic("bytes.Buffer.Grow: allocation of an input-controlled size above 64 MiB (unbounded allocation)")
+		}
+		return nil
+	}
+	br := func(x *Exec, a []Value) Value {
+		b := x.bufOf(a[0])
+		dst := a[1].(Slice)
+		d := b.flat(x)
+		if len(d) == 0 {
+			if len(dst.a) == 0 {
+				return Tuple{x.intConst(0), nilErr}
+			}
+			return Tuple{x.intConst(0), x.errEOF()}
+		}
+		n := 0
+		for n < len(dst.a) && n < len(d) {
+			dst.a[n] = d[n]
+			n++
+		}
+		b.data = d[n:]
+		return Tuple{x.intConst(int64(n)), nilErr}
+	}
+	intrinsics["(*bytes.Buffer).Read"] = br
+	intrinsics["*bytes.Buffer.Read"] = br
+	intrinsics["(*bytes.Buffer).ReadFrom"] = func(x *Exec, a []Value) Value {
+		b := x.bufOf(a[0])
+		data, err := x.readAll(a[1].(Iface))
+		b.data = append(b.flat(x), data...)
+		return Tuple{x.intConst(int64(len(data))), err}
+	}
+	intrinsics["io.ReadFull"] = func(x *Exec, a []Value) Value {
+		r := a[0].(Iface)
+		buf := a[1].(Slice)
+		got := 0
+		for got < len(buf.a) {
+			n, err := x.readFrom(r, Slice{a: buf.a[got:]})
+			got += n
+			if err.t != nil {
+				if e, ok := err.v.(*ErrObj); ok && e.kind == "EOF" {
+					if got == 0 {
+						return Tuple{x.intConst(0), x.errEOF()}
+					}
+					if got < len(buf.a) {
+						return Tuple{x.intConst(int64(got)), x.errUEOF()}
+					}
+					break
+				}
+				return Tuple{x.intConst(int64(got)), err}
+			}
+			if n == 0 {
+				x.engineErr("io.ReadFull: reader made no progress")
+			}
+		}
+		return Tuple{x.intConst(int64(got)), nilErr}
+	}
+	intrinsics["io.Copy"] = func(x *Exec, a []Value) Value {
+		data, err := x.readAll(a[1].(Iface))
+		if len(data) > 0 {
+			r := x.callMethod(a[0].(Iface), "Write", nil, []Value{x.bytesSlice(data)}).(Tuple)
+			if r[1].(Iface).t != nil {
+				return Tuple{x.intConst(0), r[1]}
+			}
+		}
+		return Tuple{x.intConst(int64(len(data))), err}
+	}
+	intrinsics["crypto/sha1.Sum"] = func(x *Exec, a []Value) Value {
+		out := x.shaSum(x.strOf(a[0]).b)
+		arr := make(Array, 20)
+		for i, t := range out {
+			arr[i] = t
+		}
+		return arr
+	}
+	fpr := func(ln bool) Intrinsic {
+		return func(x *Exec, a []Value) Value {
+			var s Str
+			if ln {
+				s = x.sprint(a[1].(Slice).a, true)
+				s.b = append(append([]*Term{}, s.b...), x.c.st.Const(8, '\n'))
+			} else {
+				s = x.sprintf(a[1].(Str), a[2].(Slice).a)
+			}
+			return x.callMethod(a[0].(Iface), "Write", nil, []Value{x.bytesSlice(s.b)})
+		}
+	}
+	intrinsics["fmt.Fprintf"] = fpr(false)
+	intrinsics["fmt.Fprintln"] = fpr(true)
+	intrinsics["fmt.Fprint"] = func(x *Exec, a []Value) Value {
+		s := x.sprint(a[1].(Slice).a, false)
+		return x.callMethod(a[0].(Iface), "Write", nil, []Value{x.bytesSlice(s.b)})
+	}
+	intrinsics["fmt.Sprintln"] = func(x *Exec, a []Value) Value {
+		s := x.sprint(a[0].(Slice).a, true)
+		return Str{append(append([]*Term{}, s.b...), x.c.st.Const(8, '\n'))}
+	}
+	intrinsics["fmt.Print"] = func(x *Exec, a []Value) Value {
+		x.stdout(x.sprint(a[0].(Slice).a, false))
+		return Tuple{x.intConst(0), nilErr}
+	}
+	intrinsics["sort.Strings"] = func(x *Exec, a []Value) Value {
+		sl := a[0].(Slice)
+		for i := 1; i < len(sl.a); i++ {
+			for j := i; j > 0; j-- {
+				if !x.c.Branch(x.strLess(sl.a[j].(Str), sl.a[j-1].(Str), false)) {
+					break
+				}
+				sl.a[j], sl.a[j-1] = sl.a[j-1], sl.a[j]
+			}
+		}
+		return nil
+	}
+	intrinsics["sort.SliceStable"] = func(x *Exec, a []Value) Value { return intrinsics["sort.Slice"](x, a) }
+	// os.Stdout / os.Stderr as writers
+	intrinsics["*os.File.WriteString"] = intrinsics["(*os.File).WriteString"]
 }
